@@ -937,7 +937,7 @@ theorem build_congr (a b : List Out) (h : expo a = expo b) :
     frames of equal time and direction.
     Nothing raises, and the export without `-a` is exactly one UDP frame per DATAGRAM whose 1-RTT packet carried STREAM
     data, in capture order, with that data, the datagram's capture time and direction. -/
-theorem quic_connection_exact_interleaved_adj (hl : H.Lawful) (h32 : H.sha256.outLen = 32) (L : SealLaws Pc)
+theorem quic_interleaved_exact_adj (hl : H.Lawful) (h32 : H.sha256.outLen = 32) (L : SealLaws Pc)
     (cr csel ch sh ca sa : Bytes) (early : Option Bytes) (sel : SuiteSel) (hsel : selectSuite csel = some sel)
     (ho : (hashOf H sel.hash).outLen < 65536)
     (hsa : sa.length = (hashOf H sel.hash).outLen) (hca : ca.length = (hashOf H sel.hash).outLen)
@@ -1052,12 +1052,12 @@ theorem quic_connection_exact_interleaved (hl : H.Lawful) (h32 : H.sha256.outLen
     unfold DistinctKeys
     rw [List.map_map]
     exact htimes
-  exact quic_connection_exact_interleaved_adj maskFn H Pc info hl h32 L cr csel ch sh ca sa early sel hsel ho hsa hca kl0 p0 d0
+  exact quic_interleaved_exact_adj maskFn H Pc info hl h32 L cr csel ch sh ca sa early sel hsel ho hsa hca kl0 p0 d0
     itemsA hkl c hc hd0 hok htr hcar hkeyed itemsB hcarB hsend (hdist.adjacent false)
 
 /-- … with a conformant TLS 1.3 handshake (`ConfHs`): the parser hypothesis `PTrace` replaced by "the CRYPTO frames of the
     long-header packets are, in processing order, those of `hs`" (`ptrace_of_conformant`) -/
-theorem quic_connection_exact_interleaved_conformant (hl : H.Lawful) (h32 : H.sha256.outLen = 32) (L : SealLaws Pc)
+theorem quic_interleaved_exact_conformant (hl : H.Lawful) (h32 : H.sha256.outLen = 32) (L : SealLaws Pc)
     (hs : ConfHs) (hsok : hs.Ok) (ch sh ca sa : Bytes) (early : Option Bytes) (sel : SuiteSel)
     (hsel : selectSuite hs.sh.cipherSuite = some sel)
     (ho : (hashOf H sel.hash).outLen < 65536)
@@ -1082,7 +1082,7 @@ theorem quic_connection_exact_interleaved_conformant (hl : H.Lawful) (h32 : H.sh
     let c1 := mixFeedAll QM c ((kl0, p0, d0) :: itemsA)
     (feedAll QM c1 itemsB).raised = none ∧
     QM.out false (feedAll QM c1 itemsB) = expectedOut c (shortsOf (d0 :: itemsA.map (·.2.2)) ++ itemsB.map (·.2.2)) :=
-  quic_connection_exact_interleaved_adj maskFn H Pc info hl h32 L hs.ch.random hs.sh.cipherSuite ch sh ca sa early sel hsel ho hsa
+  quic_interleaved_exact_adj maskFn H Pc info hl h32 L hs.ch.random hs.sh.cipherSuite ch sh ca sa early sel hsel ho hsa
     hca kl0 p0 d0 itemsA hkl c hc hd0 hok (by rw [hins]; exact ptrace_of_conformant hs hsok) hcar hkeyed itemsB hcarB hsend
     hadj
 
